@@ -251,6 +251,11 @@ func DrawField(rt *rapid.T, e *Enc, tag int, depth int, label string) (compound 
 		types = types[:9]
 	}
 	ty := rapid.SampledFrom(types).Draw(rt, label+".ty")
+	return DrawFieldOfType(rt, e, ty, tag, depth, label)
+}
+
+// DrawFieldOfType is DrawField with the wire type chosen by the caller.
+func DrawFieldOfType(rt *rapid.T, e *Enc, ty int, tag int, depth int, label string) (compound bool) {
 	compound = tag >= 15
 	switch ty {
 	case WZero:
